@@ -354,7 +354,7 @@ func (m *Model) Canon() string {
 	sort.Strings(ids)
 	for _, id := range ids {
 		r := m.Miners[id]
-		fmt.Fprintf(&sb, "M %s t%d %s s%d a%d+%d-%d f%v\n", id, r.Type, r.Account, r.Status, r.Applied, r.Added, r.Refunded, r.Fresh)
+		fmt.Fprintf(&sb, "M %s t%d %s s%d a%d+%d-%d f%v k%s/%s\n", id, r.Type, r.Account, r.Status, r.Applied, r.Added, r.Refunded, r.Fresh, r.PK, r.VRF)
 	}
 	as := make([]string, 0, len(m.Bal))
 	for a := range m.Bal {
